@@ -3,9 +3,18 @@
 # existing suite over every crate depending on the patched crate with the baseline runner (nextest) with the patch only.
 # usage: confirm_full.sh <worktree> <seed>:<patched crate>:<demo crate>:<demo test filter> ...
 WT=$1; shift
-export CARGO_NET_OFFLINE=true CARGO_INCREMENTAL=0 TMPDIR=$WT/_tmp CARGO_BUILD_JOBS=6
+export CARGO_NET_OFFLINE=true CARGO_INCREMENTAL=0 TMPDIR=$WT/_tmp CARGO_BUILD_JOBS=${CONFIRM_JOBS:-8}
+if [ -n "$CONFIRM_PLAIN" ]; then export CARGO_PROFILE_DEV_DEBUG=0 CARGO_PROFILE_TEST_DEBUG=0; fi
 mkdir -p $TMPDIR
 clean() { find $TMPDIR -mindepth 1 -maxdepth 1 -exec rm -rf {} + 2>/dev/null; }
+# the demonstration test alone; in plain mode through the workspace-wide nextest build (the same feature unification as the suite run, nothing is built twice)
+demo_run() {
+  if [ -n "$CONFIRM_PLAIN" ]; then
+    cargo nextest run --workspace -E "package($DCR) & test(/$TF/)" --offline --no-fail-fast --tool-config-file pb:/w/lib/nextest.toml --profile pb 2>&1 | grep -E "^\s+(PASS|FAIL|TIMEOUT|SIGABRT)|Summary|error(\[|:)" | sed -E 's/^\s+PASS \[[^]]*\]/test ok:/; s/^\s+FAIL \[[^]]*\]/test FAILED:/' | sort -u | head -12
+  else
+    cargo test -p $DCR --offline $TF 2>&1 | grep -E "^test |test result|error(\[|:)" | grep -v "0 passed; 0 failed" | head -12
+  fi
+}
 for item in "$@"; do
   IFS=: read SEED CR DCR TF <<< "$item"; SD=/verif/seeded/$SEED; LOG=$SD/confirm.log
   cd $WT && git checkout -q -- . && git clean -fdq -e _seed -e target -e _tmp
@@ -13,11 +22,11 @@ for item in "$@"; do
     echo "== confirm $SD in $WT patched crate=$CR demo crate=$DCR demo=$TF"
     git apply $SD/demo.diff || echo "DEMO APPLY FAILED"
     echo "-- demo on HEAD (expect pass)"
-    cargo test -p $DCR --offline $TF 2>&1 | grep -E "^test |test result|error(\[|:)" | grep -v "0 passed; 0 failed" | head -12
+    demo_run
     clean
     git apply $SD/patch.diff || echo "PATCH APPLY FAILED"
     echo "-- demo with patch (expect FAIL)"
-    cargo test -p $DCR --offline $TF 2>&1 | grep -E "^test |test result|error(\[|:)" | grep -v "0 passed; 0 failed" | head -12
+    demo_run
     clean
     git apply -R $SD/demo.diff
     echo "-- existing suite with patch only, baseline runner: cargo nextest run --workspace -E 'rdeps($CR)' (expect pass)"
@@ -31,8 +40,8 @@ for item in "$@"; do
     clean
     git checkout -q -- . && git clean -fdq -e _seed -e target -e _tmp
     # artifacts built in this worktree (not hard links into /repo/target) are only good for this seed's sources: drop them (disk)
-    find $WT/target/debug/deps $WT/target/debug/incremental -type f -links 1 -delete 2>/dev/null
+    [ -z "$CONFIRM_PLAIN" ] && find $WT/target/debug/deps $WT/target/debug/incremental -type f -links 1 -delete 2>/dev/null
   } > $LOG 2>&1
-  echo "$SEED: $(grep -E 'test result' $LOG | head -2 | tr '\n' ' ' | cut -c1-120) | $(grep -E 'Summary' $LOG | tail -1)"
+  echo "$SEED: $(grep -E "test result|test ok:|test FAILED:" $LOG | head -2 | tr "\n" " " | cut -c1-160) | $(grep -E "Summary" $LOG | tail -1)"
 done
 echo ALLDONE
